@@ -174,6 +174,27 @@ impl WUnit {
     }
 }
 
+thread_local! {
+    static SYMBOLIC: std::cell::Cell<bool> = const { std::cell::Cell::new(false) };
+}
+
+/// Addresses of the three symbols used when addresses are built symbolically (C18).
+pub const SYMBOL_ADDRESSES: [u64; 3] = [0x1000, 0x20_0000, 0];
+
+/// Build with `Address::Symbol` (symbol chosen by the address, addend such that the resolved value is the address).
+pub fn set_symbolic(on: bool) {
+    SYMBOLIC.with(|s| s.set(on));
+}
+
+pub fn mk_addr(a: u64) -> w::Address {
+    if SYMBOLIC.with(|s| s.get()) {
+        let symbol = (a % 3) as usize;
+        w::Address::Symbol { symbol, addend: a.wrapping_sub(SYMBOL_ADDRESSES[symbol]) as i64 }
+    } else {
+        w::Address::Constant(a)
+    }
+}
+
 pub fn marker_of(unit: usize, entry: usize) -> u64 {
     (unit as u64) * 100_000 + entry as u64 + 1
 }
@@ -195,7 +216,7 @@ pub fn build_expr(ops: &[WOp], ui: usize, unit_ids: &[w::UnitId], entry_ids: &[V
     for op in ops {
         match op {
             WOp::Simple(o) => e.op(gimli::DwOp(*o)),
-            WOp::Addr(a) => e.op_addr(w::Address::Constant(*a)),
+            WOp::Addr(a) => e.op_addr(mk_addr(*a)),
             WOp::Constu(v) => e.op_constu(*v),
             WOp::Consts(v) => e.op_consts(*v),
             WOp::ConstType(t, b) => e.op_const_type(eid(ui, *t), b.clone().into_boxed_slice()),
@@ -294,10 +315,10 @@ pub fn build(m: &WDwarf) -> Built {
             let list = w::RangeList(
                 l.iter()
                     .map(|r| match r {
-                        WRange::BaseAddress(a) => w::Range::BaseAddress { address: w::Address::Constant(*a) },
+                        WRange::BaseAddress(a) => w::Range::BaseAddress { address: mk_addr(*a) },
                         WRange::OffsetPair(b, e) => w::Range::OffsetPair { begin: *b, end: *e },
-                        WRange::StartEnd(b, e) => w::Range::StartEnd { begin: w::Address::Constant(*b), end: w::Address::Constant(*e) },
-                        WRange::StartLength(b, l) => w::Range::StartLength { begin: w::Address::Constant(*b), length: *l },
+                        WRange::StartEnd(b, e) => w::Range::StartEnd { begin: mk_addr(*b), end: mk_addr(*e) },
+                        WRange::StartLength(b, l) => w::Range::StartLength { begin: mk_addr(*b), length: *l },
                     })
                     .collect(),
             );
@@ -308,10 +329,10 @@ pub fn build(m: &WDwarf) -> Built {
             let list = w::LocationList(
                 l.iter()
                     .map(|r| match r {
-                        WLoc::BaseAddress(a) => w::Location::BaseAddress { address: w::Address::Constant(*a) },
+                        WLoc::BaseAddress(a) => w::Location::BaseAddress { address: mk_addr(*a) },
                         WLoc::OffsetPair(b, e, d) => w::Location::OffsetPair { begin: *b, end: *e, data: build_expr(d, ui, &unit_ids, &entry_ids) },
-                        WLoc::StartEnd(b, e, d) => w::Location::StartEnd { begin: w::Address::Constant(*b), end: w::Address::Constant(*e), data: build_expr(d, ui, &unit_ids, &entry_ids) },
-                        WLoc::StartLength(b, l, d) => w::Location::StartLength { begin: w::Address::Constant(*b), length: *l, data: build_expr(d, ui, &unit_ids, &entry_ids) },
+                        WLoc::StartEnd(b, e, d) => w::Location::StartEnd { begin: mk_addr(*b), end: mk_addr(*e), data: build_expr(d, ui, &unit_ids, &entry_ids) },
+                        WLoc::StartLength(b, l, d) => w::Location::StartLength { begin: mk_addr(*b), length: *l, data: build_expr(d, ui, &unit_ids, &entry_ids) },
                         WLoc::DefaultLocation(d) => w::Location::DefaultLocation { data: build_expr(d, ui, &unit_ids, &entry_ids) },
                     })
                     .collect(),
@@ -326,7 +347,7 @@ pub fn build(m: &WDwarf) -> Built {
             vals.push((AT_MARKER, w::AttributeValue::Udata(marker_of(ui, ei))));
             for (name, v) in &e.attrs {
                 let av = match v {
-                    WVal::Address(a) => w::AttributeValue::Address(w::Address::Constant(*a)),
+                    WVal::Address(a) => w::AttributeValue::Address(mk_addr(*a)),
                     WVal::Block(b) => w::AttributeValue::Block(b.clone()),
                     WVal::Data1(x) => w::AttributeValue::Data1(*x),
                     WVal::Data2(x) => w::AttributeValue::Data2(*x),
